@@ -119,9 +119,8 @@ Fixpoint lspec_run (l : list nat) (ops : list bl_op) : list bl_obs :=
      len;  pop until IndexError;  pop(default), peek(default), len
    the property is stated as a checker over what the drain returned: exactly the
    live tasks, each served before the next one (higher rank, or equal rank and
-   earlier (re-)insertion).  This checker is a second, direct statement of the
-   property for that one shape of history (trusted as such; a proof that an
-   accepted observation is exactly what [spec_run] returns is the next step).    *)
+   earlier (re-)insertion).  Proofs/C10_Big.v proves (C10_big_ok_sound) that an
+   observation accepted here is exactly what [spec_run] returns on that history. *)
 Local Open Scope N_scope.
 
 Inductive big_rank :=
